@@ -104,7 +104,7 @@ func C04(r *drv.Run) {
 	}
 	variants := amountVariants()
 	longV := longVariants()
-	r.Rule = fmt.Sprintf("bodies B from the core generator (alphabet {a,b}: occurrences overlap, lazy and bounded loops) plus fixed overlapping bodies, two bodies whose captures only some matches bind (replace commands list every capture of the body in their with-list) and four bodies whose named loops capture, are back-referenced from inside and outside, or reuse the name of an earlier capture; per (B, text) the `all` result A and %d amount clauses (top/take n, skip s, last n for n,s in 0..5, skip s take t for s,t in 0..4 - straddling len(A); a few spelled with leading zeros) as find and as replace commands; plus 6 fixed bodies (three of them over multi-byte characters, consumed in one piece and byte by byte) on texts with 14..20 matches under %d clauses with amounts 7..13, each number also spelled with one and two leading zeros (still decimal), and with amounts 100..301 (around 128 and 256) against a text with 300 matches. Result lists of 300 007 matches (thorough: also 2^21 + 3), find and replace, seven clauses with amounts next to both ends of the list, compared inside the worker match by match (op bigwindows). Oracle: each clause's result must deep-equal (every field, incl. MatchNumber, variables, replacement) the stated slice of A; A itself is checked against the reference matcher. Non-trivial = len(A) >= 2 and the clause cuts A properly (0 < window < len(A)); distinct by (B, text, clause).", len(variants), len(longV))
+	r.Rule = fmt.Sprintf("bodies B from the core generator (alphabet {a,b}: occurrences overlap, lazy and bounded loops) plus fixed overlapping bodies, 24 bodies that open with one of the six anchors plain or negated, two bodies whose captures only some matches bind (replace commands list every capture of the body in their with-list) and four bodies whose named loops capture, are back-referenced from inside and outside, or reuse the name of an earlier capture; per (B, text) the `all` result A and %d amount clauses (top/take n, skip s, last n for n,s in 0..5, skip s take t for s,t in 0..4 - straddling len(A); a few spelled with leading zeros) as find and as replace commands; plus 6 fixed bodies (three of them over multi-byte characters, consumed in one piece and byte by byte) on texts with 14..20 matches under %d clauses with amounts 7..13, each number also spelled with one and two leading zeros (still decimal), and with amounts 100..301 (around 128 and 256) against a text with 300 matches. Result lists of 300 007 matches (thorough: also 2^21 + 3), find and replace, seven clauses with amounts next to both ends of the list, compared inside the worker match by match (op bigwindows). Oracle: each clause's result must deep-equal (every field, incl. MatchNumber, variables, replacement) the stated slice of A; A itself is checked against the reference matcher. Non-trivial = len(A) >= 2 and the clause cuts A properly (0 < window < len(A)); distinct by (B, text, clause).", len(variants), len(longV))
 	r.Assumptions = []string{"`last n` only for n >= 1 (the property's range)", "A itself judged by the C01 reference so the relation cannot hold vacuously on a wrong A"}
 	fixed := [][]gen.Node{
 		{gen.Lit{S: "aa"}},
@@ -113,6 +113,16 @@ func C04(r *drv.Run) {
 		{gen.Lit{S: "a"}, gen.Loop{Min: 0, Max: 1, Form: "maybe", Body: gen.Lit{S: "a"}}},
 		{gen.Capture{Name: "x", Body: gen.Class{Kind: "letter"}}, gen.Loop{Min: 0, Max: 1, Form: "maybe", Body: gen.BackRef{Name: "x"}}},
 	}
+	// every anchor, plain and negated, as the FIRST element of the body (a command whose body opens with `file start`
+	// matches once at most; one that opens with `not file start` matches almost everywhere)
+	anchorA := len(fixed)
+	for _, kind := range []string{"filestart", "fileend", "linestart", "lineend", "wordstart", "wordend"} {
+		for _, not := range []bool{false, true} {
+			fixed = append(fixed, []gen.Node{gen.Anchor{Kind: kind, Not: not}, gen.Loop{Min: 0, Max: 1, Form: "maybe", Body: gen.Class{Kind: "letter"}}, gen.Loop{Min: 0, Max: 1, Form: "maybe", Body: gen.Lit{S: " "}}})
+			fixed = append(fixed, []gen.Node{gen.Anchor{Kind: kind, Not: not}, gen.Class{Kind: "any"}})
+		}
+	}
+	anchorB := len(fixed)
 	// a capture that only SOME matches bind, used in the with-list of a replace command: the replacement of a match is
 	// made from that match alone, whichever matches were replaced before it
 	optCapA := len(fixed)
@@ -186,6 +196,9 @@ func C04(r *drv.Run) {
 		texts = append(texts, []byte("aaaaaa"), []byte("abababab"))
 		if long {
 			texts = longTexts
+		}
+		if !long && i >= anchorA && i < anchorB {
+			texts = append(texts, []byte("a a\naa b a\n\na"), []byte("ab a.a a"), []byte("a\nb\nc d\n"))
 		}
 		if !long && (i == optCapA || i == optCapA+1) {
 			texts = append(texts, []byte("ab a ab a a ab"), []byte("a ab b a b ab a"), []byte("a a ab a a"))
